@@ -437,6 +437,9 @@ func (r *Run) call(caller *frame, callpos token.Pos, fn Value, args []Value) Val
 	panic(fmt.Sprintf("cannot call %T", fn))
 }
 
+// useRealBody: returned by an intercept that handles only some argument shapes.
+type useRealBody struct{}
+
 type boundMethod struct {
 	fn   Value
 	recv Value
@@ -454,8 +457,11 @@ func (r *Run) callSSA(caller *frame, callpos token.Pos, fn *ssa.Function, args [
 		caller.curPos = callpos
 	}
 	if ic := r.eng.intercept(fn); ic != nil {
-		r.noteFn(fn, true)
-		return ic(r, fr, args)
+		v := ic(r, fr, args)
+		if _, real := v.(useRealBody); !real {
+			r.noteFn(fn, true)
+			return v
+		}
 	}
 	if r.stubFuncs != nil {
 		if m, ok := r.stubFuncs[fn.String()]; ok {
